@@ -48,7 +48,44 @@ func recvFieldLoad(v ssa.Value, recv ssa.Value, field string) bool {
 		return false
 	}
 	fa, ok := ld.X.(*ssa.FieldAddr)
-	return ok && fa.X == recv && core.FieldName(fa) == field
+	if !ok || core.FieldName(fa) != field {
+		return false
+	}
+	return fa.X == recv || isSnapshotOf(fa.X, recv)
+}
+
+// isSnapshotOf: x is a local struct whose only store is `*recv` (the whole recipe copied once, as a helper
+// with a value receiver does when it is expanded inside a pointer-receiver method) and whose fields are
+// never written: reading a field of it is reading that field of the recipe as it was at the copy.
+func isSnapshotOf(x ssa.Value, recv ssa.Value) bool {
+	al, ok := x.(*ssa.Alloc)
+	if !ok {
+		return false
+	}
+	n := 0
+	for _, ref := range core.Referrers(al) {
+		switch y := ref.(type) {
+		case *ssa.Store:
+			if y.Addr != ssa.Value(al) {
+				return false
+			}
+			ld, isLd := y.Val.(*ssa.UnOp)
+			if !isLd || ld.Op != token.MUL || ld.X != recv {
+				return false
+			}
+			n++
+		case *ssa.FieldAddr:
+			for _, r2 := range core.Referrers(y) {
+				if st, isSt := r2.(*ssa.Store); isSt && st.Addr == ssa.Value(y) {
+					return false
+				}
+			}
+		case *ssa.DebugRef, *ssa.UnOp:
+		default:
+			return false
+		}
+	}
+	return n == 1
 }
 
 func isSetTyped(v ssa.Value) bool { return core.NamedOf(v.Type()) == setType }
